@@ -49,11 +49,21 @@ def breakpoints(fn):
     return sorted(pts)
 
 
-def check_class(fn):
-    """The argument may flow only into comparisons with constants and the interpreted monotone calls."""
+def _input_dests(fn, input_call):
+    rx = re.compile(input_call)
+    return {b.term["dest"]["l"] for b in fn.blocks if b.term["t"] == "call" and rx.search(callee_skey(b.term) or "") and not b.term["dest"]["p"]}
+
+
+def check_class(fn, input_call=None):
+    """The argument may flow only into comparisons with constants and the interpreted monotone calls.  With `input_call`, the
+    function's input is the value returned by the (pure accessor) call matching it, e.g. `self.field.get()`, instead of parameter 1."""
     if fn.argc != 1:
         raise NotInClass("not a unary function")
     tainted = {1}
+    if input_call:
+        tainted = _input_dests(fn, input_call)
+        if not tainted:
+            raise NotInClass("no call matching %s" % input_call)
     changed = True
     while changed:
         changed = False
@@ -89,15 +99,22 @@ def check_class(fn):
             for a in t["args"]:
                 if a.get("k") in ("copy", "move") and a["pl"]["l"] in tainted:
                     ck = callee_skey(t) or ""
+                    if input_call and re.search(input_call, ck):
+                        continue
                     if not re.search(r"^core::num::(<impl u64>::)?(ilog2|leading_zeros|checked_ilog2|trailing_zeros|count_ones)$|^core::num::(ilog2|leading_zeros)$", ck):
                         raise NotInClass("the argument is passed to %s" % ck)
         if t["t"] == "switch" and t["discr"].get("k") in ("copy", "move") and t["discr"]["pl"]["l"] in tainted and not t["discr"]["pl"]["p"]:
             pass   # `match value { 0 => .., 1..=0xff => .. }` switches on the value itself: arms are constants (in the partition)
 
 
-def evaluate(fn, x, fuel=400):
-    """Interpret fn(x) for a concrete u64 x.  Pure integer MIR only."""
-    env = {1: x}
+OPAQUE = ("opaque",)
+
+
+def evaluate(fn, x, fuel=400, input_call=None, env0=None):
+    """Interpret fn(x) for a concrete u64 x.  Pure integer MIR only.  `env0` gives the initial values of several parameters instead."""
+    env = {1: x} if not input_call else {1: OPAQUE}
+    if env0 is not None:
+        env = dict(env0)
     bi = 0
 
     def val(o):
@@ -112,6 +129,8 @@ def evaluate(fn, x, fuel=400):
         v = env.get(pl["l"])
         if v is None:
             raise NotInClass("read of an undefined local _%d" % pl["l"])
+        if v is OPAQUE:
+            raise NotInClass("the computation reads something other than the designated input")
         for e in pl["p"]:
             if isinstance(e, dict) and "f" in e and isinstance(v, tuple):
                 v = v[int(e["f"])]
@@ -172,6 +191,8 @@ def evaluate(fn, x, fuel=400):
             elif r == "un" and rv["op"] == "Not":
                 a = val(rv["a"])
                 env[l] = (1 - a) if fn.locals[l] == "bool" else (~a) & ((1 << width(fn.locals[l])) - 1)
+            elif r == "ref" and input_call:
+                env[l] = OPAQUE
             else:
                 raise NotInClass(r)
         t = b.term
@@ -194,6 +215,12 @@ def evaluate(fn, x, fuel=400):
             bi = t["to"]
         elif k == "call":
             ck = callee_skey(t) or ""
+            if input_call and re.search(input_call, ck):
+                if t["dest"]["p"]:
+                    raise NotInClass("projected call destination")
+                env[t["dest"]["l"]] = x
+                bi = t["to"]
+                continue
             a = [val(o) for o in t["args"]]
             if re.search(r"ilog2$", ck) and "checked" not in ck:
                 if a[0] == 0:
@@ -205,6 +232,10 @@ def evaluate(fn, x, fuel=400):
                 r_ = (a[0] & -a[0]).bit_length() - 1 if a[0] else 64
             elif re.search(r"count_ones$", ck):
                 r_ = bin(a[0]).count("1")
+            elif re.search(r"^core::cmp::(max|Ord::max)$|^<u(8|16|32|64|size) as core::cmp::Ord>::max$", ck) and len(a) == 2:
+                r_ = max(a)
+            elif re.search(r"^core::cmp::(min|Ord::min)$|^<u(8|16|32|64|size) as core::cmp::Ord>::min$", ck) and len(a) == 2:
+                r_ = min(a)
             else:
                 raise NotInClass("call to %s" % ck)
             if t["dest"]["p"]:
@@ -218,18 +249,57 @@ def evaluate(fn, x, fuel=400):
     raise NotInClass("does not terminate within the step bound (loop?)")
 
 
-def tabulate(fn):
+def tabulate(fn, input_call=None):
     """[(lo, hi, value)] with hi inclusive, maximal runs merged: f(v) == value for every lo <= v <= hi."""
-    check_class(fn)
+    check_class(fn, input_call)
     pts = breakpoints(fn)
     out = []
     for lo, nxt in zip(pts, pts[1:]):
         if lo >= U64:
             break
         hi = nxt - 1
-        v = evaluate(fn, lo)
+        v = evaluate(fn, lo, input_call=input_call)
         if out and out[-1][2] == v and out[-1][1] + 1 == lo:
             out[-1] = (out[-1][0], hi, v)
         else:
             out.append((lo, hi, v))
     return out
+
+
+def comparison_only(fn, params):
+    """The given parameters are only copied, compared (with each other or constants) and passed to max/min: the function's result is
+    then determined by the relative order of its arguments, so evaluating one representative per weak ordering decides it for all
+    values.  Raises NotInClass otherwise."""
+    tainted = set(params)
+    changed = True
+    while changed:
+        changed = False
+        for b in fn.blocks:
+            for st in b.st:
+                if st["s"] != "=" or st["lhs"]["p"]:
+                    continue
+                rv = st["rv"]
+                if rv["r"] == "use" and rv["a"].get("k") in ("copy", "move") and rv["a"]["pl"]["l"] in tainted and st["lhs"]["l"] not in tainted:
+                    tainted.add(st["lhs"]["l"])
+                    changed = True
+            t = b.term
+            if t["t"] == "call" and re.search(r"cmp::(max|min|Ord::max|Ord::min)$|Ord>::(max|min)$", callee_skey(t) or "") and not t["dest"]["p"]:
+                if any(a.get("k") in ("copy", "move") and a["pl"]["l"] in tainted for a in t["args"]) and t["dest"]["l"] not in tainted:
+                    tainted.add(t["dest"]["l"])
+                    changed = True
+    for b in fn.blocks:
+        for st in b.st:
+            if st["s"] != "=":
+                continue
+            rv = st["rv"]
+            ops = [rv.get("a"), rv.get("b")] + list(rv.get("ops", ()))
+            if not any(isinstance(o, dict) and o.get("k") in ("copy", "move") and o["pl"]["l"] in tainted for o in ops):
+                continue
+            if rv["r"] == "use" or (rv["r"] == "bin" and rv["op"] in ("Lt", "Le", "Gt", "Ge", "Eq", "Ne")):
+                continue
+            raise NotInClass("an argument is used in `%s`" % (rv.get("op") or rv["r"]))
+        t = b.term
+        if t["t"] == "call":
+            if any(a.get("k") in ("copy", "move") and a["pl"]["l"] in tainted for a in t["args"]) and \
+                    not re.search(r"cmp::(max|min|Ord::max|Ord::min)$|Ord>::(max|min)$", callee_skey(t) or ""):
+                raise NotInClass("an argument is passed to %s" % callee_skey(t))
